@@ -1333,6 +1333,19 @@ func c8anyCompatible(first, second *c8jv) bool {
 }
 
 // inject adds one colliding member to a random object of the tree (which must be linked).
+// c8switchIndex: index of the member whose name makes the object cross the namespace's linear->map switch
+// (more than 64 names or more than 1024 bytes of unquoted names), -1 if the object never crosses it.
+func c8switchIndex(v *c8jv) int {
+	total := 0
+	for i, m := range v.mem {
+		total += len(m.name)
+		if i+1 > 64 || total > 1024 {
+			return i
+		}
+	}
+	return -1
+}
+
 func (g *c8gen) inject(root *c8jv) *c8inj {
 	var sites []*c8jv
 	root.walk(func(v *c8jv) {
@@ -1355,7 +1368,22 @@ func (g *c8gen) inject(root *c8jv) *c8inj {
 		}
 		site = best
 	}
+	// boundary bias: the coder's namespace changes representation after 64 names or 1024 bytes of names; half of
+	// the time prefer a site wide enough to cross that switch and repeat the name recorded right at the switch
+	// (the last one of the linear phase / the first ones of the map phase), with the repeat placed after it.
+	boundary := -1
+	if r.IntN(2) == 0 {
+		for _, s := range sites {
+			if b := c8switchIndex(s); b >= 0 {
+				site, boundary = s, b
+				break
+			}
+		}
+	}
 	oi := r.IntN(len(site.mem))
+	if boundary >= 0 {
+		oi = min(len(site.mem)-1, max(0, boundary-1+r.IntN(3)))
+	}
 	om := site.mem[oi]
 	inj := &c8inj{site: site}
 	inj.depth, inj.hasArr = c8depth(site)
@@ -1380,6 +1408,9 @@ func (g *c8gen) inject(root *c8jv) *c8inj {
 	inj.how = how
 	nv := g.valueFor(site, om, inj.depth)
 	pos := r.IntN(len(site.mem) + 1)
+	if boundary >= 0 {
+		pos = len(site.mem) - r.IntN(min(3, len(site.mem)-oi))
+	}
 	if inj.oracle == "tree" {
 		// the tree-merge expectation is only defined when the two values do not merge member-wise
 		// and (inside `any`) when the second value is accepted by the Go type chosen for the first
